@@ -41,9 +41,23 @@ func cannedReply(c drv.Call) ([][]byte, error) {
 	return [][]byte{reply}, nil
 }
 
-func newClient() *client {
+func newClient() *client { return newClientCfg(0) }
+
+// newClientCfg: 0 = no controllers configured (requests go out through the broadcast path);
+// 1 = the target controller configured through NewDevice with its own time zone (UTC+8), UDP;
+// 2 = configured as a struct literal with a time zone (UTC-8), TCP. The request bytes are a function
+// of the call alone: they must be the same under every configuration.
+func newClientCfg(cfg int) *client {
 	f := &drv.Fake{Script: cannedReply}
-	u := uhppote.NewUHPPOTE(types.BindAddr{}, types.BroadcastAddr{}, types.ListenAddr{}, time.Second, nil, false)
+	var devices []uhppote.Device
+	addr := types.ControllerAddrFrom(netip.MustParseAddr("192.168.1.100"), 60000)
+	switch cfg {
+	case 1:
+		devices = []uhppote.Device{uhppote.NewDevice("alpha", serial0, addr, "udp", []string{"A", "B", "C", "D"}, time.FixedZone("UTC+8", 8*3600))}
+	case 2:
+		devices = []uhppote.Device{{Name: "beta", DeviceID: serial0, Address: addr, Doors: []string{"A", "B", "C", "D"}, TimeZone: time.FixedZone("UTC-8", -8*3600), Protocol: "tcp"}}
+	}
+	u := uhppote.NewUHPPOTE(types.BindAddr{}, types.BroadcastAddr{}, types.ListenAddr{}, time.Second, devices, false)
 	if !drv.Install(u, f) {
 		panic("cannot install fake driver")
 	}
@@ -597,6 +611,32 @@ func main() {
 		}
 	}
 
+	// (1b) the same calls through clients that have the target controller configured (with a time
+	// zone of its own): every operation's baseline, and SetTime over every hour of 2024 in 5 Locations
+	for cfg := 1; cfg <= 2; cfg++ {
+		c := newClientCfg(cfg)
+		for i := range spec.Ops {
+			op := &spec.Ops[i]
+			if op.Broadcast {
+				continue
+			}
+			base := ops.Baseline(op)
+			call(r, c, op, serial0, base, wireArgs(op, base), fmt.Sprintf("client configuration %d", cfg))
+			distinct++
+		}
+		op := spec.OpByName("SetTime")
+		locs := []*time.Location{time.UTC, time.FixedZone("+14", 14*3600), time.FixedZone("-12", -12*3600), time.FixedZone("UTC+8", 8*3600), time.Local}
+		for _, loc := range locs {
+			for t := time.Date(2024, 1, 1, 0, 0, 0, 0, loc); t.Year() == 2024; t = t.Add(time.Hour) {
+				tt := t.Add(17*time.Minute + 43*time.Second)
+				a := spec.Args{ops.RawTime: tt, "DateTime": spec.CivilDT{Y: tt.Year(), M: int(tt.Month()), D: tt.Day(), H: tt.Hour(), Mi: tt.Minute(), S: tt.Second()}}
+				call(r, c, op, serial0, a, a, fmt.Sprintf("client configuration %d", cfg))
+				distinct++
+			}
+			c.fake.Reset()
+		}
+	}
+
 	// (3b) SetTime histories by value: consecutive calls whose arguments are the same instant in two
 	// different Locations (different wall clocks -> different bytes), the same wall clock in two
 	// Locations (different instants -> same bytes), and two instants within one second: for every
@@ -752,7 +792,7 @@ func main() {
 	}
 
 	r.Distinct(distinct)
-	r.Rule("per operation: baseline x serial alphabet; every argument over its full single-field domain (all uint8, 32-bit structured alphabet, all HH:mm, all ports, every octet, dates: thorough all 3652058 / quick 7 full years + first/last of every month, PINs: thorough all 10^6 / quick 0..9999 + boundaries); all argument pairs over boundary alphabets; every ordered pair of boundary values of one argument as two consecutive calls; all map shapes; passcode lists <= 6; SetTime over 5 Locations x every hour of 2024, and consecutive SetTime calls with the same instant / the same wall clock / the same second in every ordered pair of 7 Locations; consecutive AddTask / PutCard / SetTimeProfile calls whose Date arguments are the same instant / the same calendar day held in two different Locations; every ordered pair of the 32 operations as a history on one and on two clients (thorough: triples over 10 operations). distinct = distinct (operation, argument tuple[, history]) cases generated; each differs from the baseline in at least one argument")
+	r.Rule("per operation: baseline x serial alphabet (also through clients that have the controller configured with a time zone of its own, via NewDevice/UDP and as a literal/TCP, together with the SetTime sweep); every argument over its full single-field domain (all uint8, 32-bit structured alphabet, all HH:mm, all ports, every octet, dates: thorough all 3652058 / quick 7 full years + first/last of every month, PINs: thorough all 10^6 / quick 0..9999 + boundaries); all argument pairs over boundary alphabets; every ordered pair of boundary values of one argument as two consecutive calls; all map shapes; passcode lists <= 6; SetTime over 5 Locations x every hour of 2024, and consecutive SetTime calls with the same instant / the same wall clock / the same second in every ordered pair of 7 Locations; consecutive AddTask / PutCard / SetTimeProfile calls whose Date arguments are the same instant / the same calendar day held in two different Locations; every ordered pair of the 32 operations as a history on one and on two clients (thorough: triples over 10 operations). distinct = distinct (operation, argument tuple[, history]) cases generated; each differs from the baseline in at least one argument")
 	r.Assume("reference encoder spec.EncodeRequest and tables spec/protocol.go (hand-written)")
 	r.Assume("process time zone pinned to UTC (zone dependence is C05/C13)")
 	r.Finish()
